@@ -8,7 +8,7 @@ PACKAGES = {
     "native": {"dir": "internal/bgp/native", "name": "native", "libs": ["rfc4271.go"]},
     "allocator": {"dir": "internal/allocator", "name": "allocator", "libs": ["ipset.go", "allocmodel.go", "allocchecks.go", "allocgen.go"]},
     "controller": {"dir": "controller", "name": "main", "libs": ["ipset.go", "allocmodel.go", "allocchecks.go", "allocgen.go", "boxkernel.go"], "hook_deps": ["allocator"]},
-    "speaker": {"dir": "speaker", "name": "main", "libs": ["ipset.go"], "hook_deps": ["layer2"]},
+    "speaker": {"dir": "speaker", "name": "main", "libs": ["ipset.go", "allocmodel.go", "boxkernel.go"], "hook_deps": ["layer2"]},
     "layer2": {"dir": "internal/layer2", "name": "layer2", "libs": []},
     "frr": {"dir": "internal/bgp/frr", "name": "frr", "libs": ["frrinterp.go"]},
     "frrk8s": {"dir": "internal/bgp/frrk8s", "name": "frr", "libs": ["frrinterp.go"], "hook_deps": ["frr"]},
@@ -41,7 +41,9 @@ PROPS = {
     "C04": {"level": "exploration", "runs": [run("speaker", "TestVerif_C04", shards=(4, 16), files=["c04", "direct", "shared"])],
             "thresholds": {"quick": {"views-eligible-2+": 70000, "views-eligible-0": 300000, "views-eligible-1": 150000, "sibling-services-both-elect": 90000}},
             "assumptions": ["the view (nodes, speaker list, pool advertisements, endpoint slices) is an input; memberlist itself is not exercised", "exhaustive only for the bounded space named in DESIGN C04 (thorough tier)"]},
-    "C05": {"level": "exploration", "runs": [run("speaker", "TestVerif_C05", shards=(4, 16), files=["sbox", "shared"])]},
+    "C05": {"level": "exploration", "runs": [run("speaker", "TestVerif_C05", shards=(4, 16), files=["sbox", "shared"])],
+            "thresholds": {"quick": {"quiescent-points": 1500, "quiescent-points-with-expected-routes": 150, "step-checks-with-routes": 700, "bgp-service:announced": 500, "sessions-created": 100}},
+            "assumptions": ["the box reproduces the watch predicates and queue semantics of the Service / Config / Node reconcilers; the membership view (speaker list) is an input; the BGP backend is a recording SessionManager, the layer-2 backend the real announcer over in-memory responders", "the generator plays the controller (writes Service statuses); every history keeps the configuration resources valid"]},
     "C06": {"level": "fault_enumeration", "runs": [run("controller", "TestVerif_C06", shards=(4, 16), files=["box", "shared"])],
             "thresholds": {"quick": {"crashes-executed": 150, "crash-kind:before-status-write": 15, "crash-kind:after-status-write": 15, "crash-kind:in-service-reconcile": 60, "crash-kind:in-pool-reconcile": 25, "failed-writes-injected": 300, "recorded-services-that-must-keep-their-addresses": 90}},
             "assumptions": ["the box reproduces controller-runtime semantics that matter (per-reconciler queues with de-duplication, one worker each, error -> retry, reload key) and the API server's optimistic concurrency on status writes; MetalLB-internal map iteration order is not controlled, so a replay may take another but equally valid path", "the reference model of allocation rules is written from the property statements (harness/lib/allocmodel.go)"]},
@@ -56,7 +58,9 @@ PROPS = {
         "assumptions": ["the oracle's reading of the address notations (netip parser, IPv4-mapped normalised to IPv4)",
                         "only accepted configurations are judged; over-rejection is never reported"],
     },
-    "C09": {"level": "exploration", "runs": [run("speaker", "TestVerif_C09", shards=(4, 16), files=["sbox", "shared"])]},
+    "C09": {"level": "exploration", "runs": [run("speaker", "TestVerif_C09", shards=(4, 16), files=["sbox", "shared"])],
+            "thresholds": {"quick": {"fresh-comparisons": 1000, "quiescent-points-with-announcements": 230, "withdrawals-to-nothing": 30}},
+            "assumptions": ["the box reproduces the watch predicates and queue semantics of the Service / Config / Node reconcilers; the membership view (speaker list) is an input; the BGP backend is a recording SessionManager, the layer-2 backend the real announcer over in-memory responders", "the generator plays the controller (writes Service statuses); every history keeps the configuration resources valid", "the reference (freshly started) speaker hears of the nodes before configuration and services; the start-order dependence of the real speaker is a known finding"]},
     "C10": {"level": "exploration", "runs": [run("speaker", "TestVerif_C10", shards=(4, 16), files=["c10", "direct", "shared"])],
             "thresholds": {"quick": {"decision:announce:Cluster": 120000, "decision:announce:Local": 80000, "decision:refuse:noLocalEndpoints": 70000, "decision:refuse:nodeLabeledExcludeBalancers": 100000, "layouts-with-conflicting-repeated-address": 600000}},
             "assumptions": ["under the Local policy the same endpoint address on different nodes with conflicting conditions is ambiguous in the statement: counted, not judged"]},
